@@ -341,9 +341,10 @@ def run_model_only(stream, cases, timeout=900, jobs=None):
     return run_harness_only(stream, cases, timeout=timeout, jobs=jobs, exe=driver_path(), key="m")
 
 
-def run_harness_only(stream, cases, variant="san", timeout=900, jobs=None, env_extra=None, exe=None, key="c"):
+def run_harness_only(stream, cases, variant="san", timeout=900, jobs=None, env_extra=None, exe=None, key="c", wrap=None):
+    """wrap: a command prefix (e.g. valgrind with its options) the harness is run under"""
     exe = exe or build_harness(variant)
-    r_ = _fan([exe, stream], cases, timeout, jobs, env_extra)
+    r_ = _fan(list(wrap or []) + [exe, stream], cases, timeout, jobs, env_extra)
     return [{"ops": c, key: b if rc == 0 else None, key + "_partial": b, "rc_" + key: rc, "err_" + key: e}
             for c, (b, rc, e) in zip(cases, r_)]
 
